@@ -46,6 +46,13 @@ func (s *Server) tagList(repoStr string) http.HandlerFunc {
 		}
 		sort.Strings(tl.Tags)
 		n := r.URL.Query().Get("n")
+		// n=0 asks for an empty page and a negative n is not a page size: neither may reach the slicing below
+		if nInt, err := strconv.Atoi(n); err == nil && nInt <= 0 {
+			if nInt == 0 {
+				tl.Tags = []string{}
+			}
+			n = ""
+		}
 		if n != "" {
 			if nInt, err := strconv.Atoi(n); err == nil && len(tl.Tags) > nInt {
 				tl.Tags = tl.Tags[:nInt]
